@@ -211,8 +211,27 @@ def iterate (md : Module) (starts : List Nat) : Nat → HMap → List Nat → Ex
         | .ok (hm', work') => iterate md starts fuel hm' work'
     | _, _ => iterate md starts fuel hm work
 
+/-- certificate re-check at one address: for an instruction of the effect table the recorded height of the fall-through
+successor is `h - pops + pushes` and the operands exist (`JUMPZ`: both successors).  `verifyH` re-checks the height map it
+computed with this predicate at every address, so that what is proved about verified modules (Props/C07) rests on this
+five-line test, not on the worklist iteration. -/
+def flowOkAt (md : Module) (hm : HMap) (a : Nat) : Bool :=
+  match md.code[a]?, hm[a]? with
+  | some i, some (some s) =>
+    match simpleEffect i with
+    | some (p, q) =>
+      let nextOk := match hm[a + 1]? with | some (some s') => p ≤ s.h && s'.h + p == s.h + q | _ => false
+      if i.op == .JUMPZ then
+        let t := ((a : Int) + 1 + i32 i.w0).toNat
+        nextOk && (match hm[t]? with | some (some s') => s'.h + p == s.h + q | _ => false)
+      else nextOk
+    | none => true
+  | _, _ => true
+
+def flowOk (md : Module) (hm : HMap) : Bool := (List.range md.code.size).all (flowOkAt md hm)
+
 /-- the verifier proper: summary and the height map (one abstract state per reached address) -/
-def verifyH (md : Module) : Except String (Summary × HMap) := do
+def verifyCore (md : Module) : Except String (Summary × HMap) := do
   let n := md.code.size
   if n == 0 then throw "empty module" else
   if !ExcWF md.exctab md.excCount then throw "exception table is not well-formed (first block 0, strictly increasing, sentinel)" else
@@ -245,6 +264,14 @@ def verifyH (md : Module) : Except String (Summary × HMap) := do
   let calls := cnt (·.op == .CALL)
   let sm : Summary := { instrs := n, functions := starts.length, calls := calls, tailCalls := calls - marks.length, jumps := cnt (fun i => i.op == .JUMP || i.op == .JUMPZ), handlers := handlers.length, maxHeight := reached.foldl (fun m s => max m (s.map (·.h) |>.getD 0)) 0, unreached := n - reached.length }
   pure (sm, hm)
+
+/-- the verifier: `verifyCore`, then the certificate re-check of the height map it produced -/
+def verifyH (md : Module) : Except String (Summary × HMap) :=
+  match verifyCore md with
+  | .error e => .error e
+  | .ok (sm, hm) =>
+    if flowOk md hm then .ok (sm, hm)
+    else .error "certificate re-check failed: a recorded height is not pops/pushes-consistent with its successor"
 
 def verify (md : Module) : Except String Summary := (verifyH md).map (·.1)
 
